@@ -49,6 +49,8 @@ class Fails:
 
 # ----------------------------------------------------------------------------- frames
 def state_label(col, k, kind):
+    if kind == "bigint":      # labels beyond 2**24: distinct as integers and as float64, not as float32
+        return 1700000001 + k
     return k if kind == "int" else f"{col[0]}{'qrs'[k]}"
 
 
@@ -64,7 +66,7 @@ def make_df(case, rows=None, cols=None, weights="case"):
         i = cols_all.index(c)
         vals = [r[i] for r in rows]
         kind = case["kinds"][c]
-        if kind == "int":
+        if kind in ("int", "bigint"):
             data[c] = pd.Series(vals, dtype="int64")
         elif kind == "str":
             data[c] = pd.Series(vals, dtype=object)
@@ -154,6 +156,8 @@ def seeded_frame(rng, ncols, lo=4, hi=30, weights=None, kinds=("int", "str", "ca
     knd, declared, gen_states = {}, {}, {}
     for c in cols:
         kind = rng.choice(kinds)
+        if kind == "int" and rng.random() < 0.2:
+            kind = "bigint"
         card = rng.choice((1, 2, 2, 2, 3, 3))
         knd[c] = kind
         sts = [state_label(c, k, kind) for k in range(3)]
